@@ -322,7 +322,14 @@ func (h *HttpServer) handleStreamInit(w http.ResponseWriter, r *http.Request) {
 			h.writeHttpError(w, http.StatusInternalServerError, err, nil)
 			return
 		}
-		callToken, err := h.packCallToken(callID, outputSchema, auth, streamID)
+		// A dynamic method has no registered input schema: the one this stream
+		// declared rides the call token so continuation turns can cast against
+		// it, as the pipe transports do.
+		var declaredInput *arrow.Schema
+		if info.Type == MethodDynamic {
+			declaredInput = streamResult.InputSchema
+		}
+		callToken, err := h.packStreamCallToken(callID, outputSchema, declaredInput, auth, streamID)
 		if err != nil {
 			handlerErr = err
 			h.writeHttpError(w, http.StatusInternalServerError, err, nil)
@@ -601,6 +608,27 @@ func (h *HttpServer) handleStreamExchange(w http.ResponseWriter, r *http.Request
 	if isProducer {
 		handlerErr = h.handleProducerContinuation(ctx, w, outputSchema, tokenData.State.(ProducerState), info, stats, auth, transportMeta, cookies, streamID, tokenData.CallID, stickySinkForCtx, inputMeta)
 	} else {
+		// A dynamic exchange stream casts against the input schema it declared
+		// at init (static methods were cast against their registered schema
+		// above, before the token was looked at).
+		if info.Type == MethodDynamic && len(call.InputSchemaIPC) > 0 {
+			declared, schemaErr := deserializeSchema(call.InputSchemaIPC)
+			if schemaErr != nil {
+				handlerErr = &RpcError{Type: "RuntimeError", Message: fmt.Sprintf("failed to recover input schema: %v", schemaErr)}
+				h.writeHttpError(w, http.StatusBadRequest, handlerErr, nil)
+				return
+			}
+			if !inputBatch.Schema().Equal(declared) {
+				castBatch, castErr := castRecordBatch(inputBatch, declared)
+				if castErr != nil {
+					handlerErr = castErr
+					h.writeHttpError(w, http.StatusBadRequest, castErr, nil)
+					return
+				}
+				defer castBatch.Release()
+				inputBatch = castBatch
+			}
+		}
 		handlerErr = h.handleExchangeCall(ctx, w, inputBatch, inputMeta, outputSchema, tokenData.State.(ExchangeState), info, stats, auth, transportMeta, cookies, streamID, tokenData.CallID, stickySinkForCtx)
 	}
 }
